@@ -23,6 +23,7 @@ EXPLANATION = (
     " Added after seed round 6: N4 also requires that the list handed to notify_cycle is the complete, never re-bound result of engine.find_cycle."
     " Added after seed round 8: N10 EvalNot.complete hands its parent not(or(all proofs))."
     " Added after seed round 9: N11 every path of StackBasedEngine.eval_neg evaluates the negation through an EvalNot frame."
+    " Added after seed round 11: N12 EvalNode.__init__ initialises on_cycle with the constant False and every other store to on_cycle is the constant True."
 )
 TECHNIQUE = "static analysis: CFG must-pass-through rules over the cycle-detection call chain"
 LEVEL_TEXT = EXPLANATION
@@ -367,6 +368,36 @@ def rule_n11(repo, col):
                "rejected with NegativeCycle" % "; ".join(bad[:2]), construct="eval_neg: negation evaluated without an EvalNot frame", function="StackBasedEngine.eval_neg")
 
 
+def rule_n12(repo, col):
+    """a node is born OFF the cycle: EvalNode.__init__ sets on_cycle to the constant False, and every other store to it is the constant True (made by createCycle / notify_cycle
+    style methods).  checkCycle stops climbing at the first on_cycle node, so a node that merely starts below a cycle and claims to be on it hides the EvalNot above it"""
+    c = repo.cls("problog.eval_nodes", "EvalNode")
+    m = c.module
+    init = c.methods.get("__init__")
+    if init is None:
+        raise AnalysisError("EvalNode.__init__ missing")
+    stores = [st for st in walk_no_nested(init.node) if isinstance(st, ast.Assign) and any(norm(t) == "self.on_cycle" for t in st.targets)]
+    if len(stores) != 1:
+        raise AnalysisError("EvalNode.__init__: store to self.on_cycle not found")
+    v = stores[0].value
+    col.decide("N12", m, stores[0], isinstance(v, ast.Constant) and v.value is False, "a new evaluation node starts off the cycle (on_cycle = False)",
+               "EvalNode.__init__ initialises on_cycle with %s: checkCycle stops climbing the parent chain at the first node that is on_cycle, so a node that claims to be on the cycle "
+               "without having been visited by createCycle hides an EvalNot between it and the cycle root - 0.5::b. x:-y. y:-x. y:-p. p:-b. p:-\\+t. t:-p. is answered x = 1.0 instead of "
+               "NegativeCycle" % norm(v), construct="EvalNode.__init__: initial on_cycle", function="EvalNode.__init__")
+    n = 0
+    for f in repo.all_functions():
+        if f.module.name not in ("problog.eval_nodes", "problog.engine_stack") or f.name == "__init__":
+            continue
+        for st in walk_no_nested(f.node):
+            if isinstance(st, ast.Assign) and any(isinstance(t, ast.Attribute) and t.attr == "on_cycle" for t in st.targets):
+                n += 1
+                okv = isinstance(st.value, ast.Constant) and st.value.value is True
+                col.decide("N12", f.module, st, okv, "%s marks a node as on the cycle with the constant True" % f.qualname,
+                           "%s stores %s into on_cycle: outside the constructor a node only ever JOINS a cycle" % (f.qualname, norm(st.value)),
+                           construct="%s: store to on_cycle" % f.qualname, function=f.qualname)
+    col.floor("N12.stores", n, 4)
+
+
 def run(repo, col):
     col.rule("N1", "EvalNot.createCycle always raises NegativeCycle")
     col.rule("N2", "checkCycle raises on an EvalNot between child and parent")
@@ -387,3 +418,5 @@ def run(repo, col):
     rule_n10(repo, col)
     col.rule("N11", "negation nodes always get an EvalNot frame")
     rule_n11(repo, col)
+    col.rule("N12", "a new evaluation node starts off the cycle")
+    rule_n12(repo, col)
